@@ -271,6 +271,7 @@ class CSSImportRule(cssrule.CSSRule):
     )
 
     def _setHref(self, href):
+        self._checkReadonly()
         # set new href
         self._href = href
         # update seq
@@ -386,6 +387,7 @@ class CSSImportRule(cssrule.CSSRule):
 
     def _setName(self, name=''):
         """Raises xml.dom.SyntaxErr if name is not a string."""
+        self._checkReadonly()
         if name is None or isinstance(name, str):
             # "" or '' handled as None
             if not name:
